@@ -1934,12 +1934,15 @@ impl<'a, E: quiver_core::effects::Effect> Compiler<'a, E> {
 
         // Apply narrowing to the matched value's provenance if the pattern narrows the type.
         // This is done here on the success path - the type has been narrowed by the pattern.
-        // Note: result_type is the narrowed type from analyze_pattern.
-        if !self.is_never(result_type) && !self.is_nil(result_type) {
+        // What holds on the success path is the matched type: `result_type` also carries nil as
+        // the "match may fail" marker, and narrowing to that would keep a genuine nil variant of
+        // the value although the pattern does not match nil (the guard recorded for the branch
+        // in a case table would then claim to cover nil arguments).
+        if !self.is_never(matched_type) && !self.is_nil(matched_type) {
             apply_narrowing(
                 &mut self.scopes,
                 &value_provenance,
-                result_type,
+                matched_type,
                 self.program,
             );
         } else if self.is_nil(matched_type) && self.contains_nil(value_type) {
